@@ -287,6 +287,26 @@ class BTSCameraData:
         )
 
 
+    def __eq__(self, o: object) -> bool:
+        if not isinstance(o, BTSCameraData):
+            return False
+        return (
+            np.array_equal(self.rotation_matrix, o.rotation_matrix)
+            and np.array_equal(self.translation_vector, o.translation_vector)
+            and np.array_equal(self.focus, o.focus)
+            and np.array_equal(self.optical_center, o.optical_center)
+            and np.array_equal(
+                self._padded(self.x_distortion_coefficients),
+                o._padded(o.x_distortion_coefficients),
+            )
+            and np.array_equal(
+                self._padded(self.y_distortion_coefficients),
+                o._padded(o.y_distortion_coefficients),
+            )
+            and self.view_port == o.view_port
+        )
+
+
 class CalibrationDataBlockFormat(IntEnum):
     """
     Available block formats for the Calibration Data block
